@@ -58,7 +58,7 @@ def b01 (b : Bool) : String := if b then "1" else "0"
 def cmdCheck (a : Args) : String := Id.run do
   let some ts := a.get? "tree" | return "bad-args tree"
   let some t := treeOf ts | return "bad-args tree-syntax"
-  let base := s!"bst={b01 (bstB t)} augle={b01 (augLeB S t)} exact={b01 (exactB S t)} n={t.size} " ++
+  let base := s!"bst={b01 (bstB t)} augle={b01 (augLeB S t)} augleq={b01 (augLeQB S t)} exact={b01 (exactB S t)} n={t.size} " ++
     "keys=" ++ ";".intercalate (t.toList.map fun n => showFloat n.key)
   match a.float? "qk", a.float? "qa", a.float? "qg" with
   | some k, some ang, some g =>
